@@ -331,8 +331,10 @@ def build_model(fam, timeout=900):
     with Lock("ml-" + fam):
         if os.path.exists(exe):
             return exe
-        for old in glob.glob(os.path.join(BUILD, "ml-%s-*" % fam)):
-            shutil.rmtree(old, ignore_errors=True)
+        olds = sorted(glob.glob(os.path.join(BUILD, "ml-%s-*" % fam)), key=os.path.getmtime, reverse=True)
+        for old in olds[2:]:
+            if time.time() - os.path.getmtime(old) > 3600:
+                shutil.rmtree(old, ignore_errors=True)
         os.makedirs(d)
         # extraction writes into the current directory of coqc
         rc, out = sh(["coqc", "-Q", COQ, "IW", "-w", "-all", "-o", os.path.join(d, "Extract_%s.vo" % fam), ext], cwd=d, timeout=timeout)
